@@ -638,7 +638,9 @@ func (t *Table) IndexesDescription() ([]types.GlobalSecondaryIndexDescription, [
 	gsi := []types.GlobalSecondaryIndexDescription{}
 	lsi := []types.LocalSecondaryIndexDescription{}
 
-	for indexName, index := range t.Indexes {
+	for name, index := range t.Indexes {
+		// each description needs its own copy of the name: &name would alias the loop variable
+		indexName := name
 		schema := index.keySchema.describe()
 		count := index.count()
 
